@@ -268,6 +268,11 @@ func batchModels(all bool) []*batchModel {
 	mkModel("MatMul-batched/wide(N,8,32)x(32,40)", "x", []hx.DimSpec{N, fx(8), fx(32)}, batchIO{[]int{1, 8, 32}, 0}, nil, []*onnx.NodeProto{hx.Node("MatMul", []string{"x", "W"}, []string{"y"}, nil)}, []*onnx.TensorProto{init("W", 32, 40)}, map[string]int{"y": 0}, nil, nil)
 	mkModel("GRU/wide(seq2,N,24)h32", "x", []hx.DimSpec{fx(2), N, fx(24)}, batchIO{[]int{2, 1, 24}, 1}, nil, []*onnx.NodeProto{hx.Node("GRU", []string{"x", "W", "R", "B"}, []string{"Y", "Yh"}, []hx.Attr{hx.AInt("hidden_size", 32)})}, []*onnx.TensorProto{init("W", 1, 96, 24), init("R", 1, 96, 32), init("B", 1, 192)}, map[string]int{"Y": 2, "Yh": 1}, nil, nil)
 	mkModel("LSTM/wide(seq2,N,24)h32", "x", []hx.DimSpec{fx(2), N, fx(24)}, batchIO{[]int{2, 1, 24}, 1}, nil, []*onnx.NodeProto{hx.Node("LSTM", []string{"x", "W", "R", "B"}, []string{"Y", "Yh", "Yc"}, []hx.Attr{hx.AInt("hidden_size", 32)})}, []*onnx.TensorProto{init("W", 1, 128, 24), init("R", 1, 128, 32), init("B", 1, 256)}, map[string]int{"Y": 2, "Yh": 1, "Yc": 1}, nil, nil)
+	// the weight as the LEFT operand of a stack of per-sample matrices, small and wide
+	mkModel("MatMul-weight-left(2,3)x(N,3,2)", "x", []hx.DimSpec{N, fx(3), fx(2)}, batchIO{[]int{1, 3, 2}, 0}, nil, []*onnx.NodeProto{hx.Node("MatMul", []string{"Wl", "x"}, []string{"y"}, nil)}, []*onnx.TensorProto{init("Wl", 2, 3)}, map[string]int{"y": 0}, nil, nil)
+	mkModel("MatMul-weight-left(4,3)x(N,3,1)", "x", []hx.DimSpec{N, fx(3), fx(1)}, batchIO{[]int{1, 3, 1}, 0}, nil, []*onnx.NodeProto{hx.Node("MatMul", []string{"Wl4", "x"}, []string{"y"}, nil)}, []*onnx.TensorProto{init("Wl4", 4, 3)}, map[string]int{"y": 0}, nil, nil)
+	mkModel("MatMul-weight-left/wide(24,32)x(N,32,8)", "x", []hx.DimSpec{N, fx(32), fx(8)}, batchIO{[]int{1, 32, 8}, 0}, nil, []*onnx.NodeProto{hx.Node("MatMul", []string{"Wlw", "x"}, []string{"y"}, nil)}, []*onnx.TensorProto{init("Wlw", 24, 32)}, map[string]int{"y": 0}, nil, nil)
+	mkModel("MatMul-weight-left-rank4(2,3)x(N,2,3,2)", "x", []hx.DimSpec{N, fx(2), fx(3), fx(2)}, batchIO{[]int{1, 2, 3, 2}, 0}, nil, []*onnx.NodeProto{hx.Node("MatMul", []string{"Wl", "x"}, []string{"y"}, nil)}, []*onnx.TensorProto{init("Wl", 2, 3)}, map[string]int{"y": 0}, nil, nil)
 	// tensors with more structure per sample
 	mkModel("MatMul-batched(N,2,3)", "x", []hx.DimSpec{N, fx(2), fx(3)}, batchIO{[]int{1, 2, 3}, 0}, nil, []*onnx.NodeProto{hx.Node("MatMul", []string{"x", "W"}, []string{"y"}, nil)}, []*onnx.TensorProto{init("W", 3, 2)}, map[string]int{"y": 0}, nil, nil)
 	mkModel("Flatten+Gemm(N,2,3)", "x", []hx.DimSpec{N, fx(2), fx(3)}, batchIO{[]int{1, 2, 3}, 0}, nil, []*onnx.NodeProto{hx.Node("Flatten", []string{"x"}, []string{"f"}, []hx.Attr{hx.AInt("axis", 1)}), hx.Node("Gemm", []string{"f", "W6", "b"}, []string{"y"}, nil)}, []*onnx.TensorProto{init("W6", 6, 2), init("b", 2)}, map[string]int{"y": 0, "f": 0}, nil, nil)
